@@ -366,6 +366,17 @@ def stream3_cases(rng, so, n):
             fail = "probe-failif:2" if 2 in ks else None
             exp = "" if fail else "<Vector>[%s]\n<Str>after\n" % ", ".join(str(2 * k) for k in ks)
             out.append({"text": text, "exp_out": exp, "fail": fail, "what": "map callback over %r" % ks, "loose_list": True})
+    # the failing call is in the TOP-LEVEL code of a module that the entry file imports (module_entry)
+    missing_lib = os.path.join(os.path.dirname(so), "no-such-dir", "libabsent.so")
+    for what, lib, sym, arg, want in (("raised", so, "failmsg", "import-time failure", "FFI: import-time failure"),
+                                      ("raised-two-lines", so, "failmsg", "first\nsecond", "FFI: first"),
+                                      ("missing-symbol", so, "no_such_symbol_x", "a", "Could not find symbol (no_such_symbol_x)"),
+                                      ("missing-library", missing_lib, "echo", "a", "Could not open FFI Library (%s)" % missing_lib)):
+        helper = ('function __module__\n\tmake_str "in helper"\n\tprintn "*"\n\tvoid\n%s\n\tcall_lib %s %s\n\tprintn "*"\n\tvoid\n\tmake_str "helper done"\n\tprintn "*"\n\tvoid\n\tret_mod\nend\n'
+                  % (push_text(("str", arg)), quote(lib), quote(sym)))
+        main = ('function __module__\n\tmake_str "before"\n\tprintn "*"\n\tvoid\n\tmodule_entry "helper.mmm#__module__"\n\tstore "helper"\n' + tail)
+        out.append({"text": main, "extra": {"helper": helper}, "exp_out": "<Str>before\n<Str>in helper\n", "fail": want.replace("FFI: ", ""),
+                    "must_contain": [want] + (["second"] if what == "raised-two-lines" else []), "what": "imported module: " + what})
     return out
 
 
@@ -378,6 +389,12 @@ def run_stream3(ctx, binary, so):
         with open(os.path.join(d, "x.transpiled.mmm"), "w", encoding="utf8") as f:
             f.write(c["text"])
         t = programs.run_bin(binary, ["transpile", "x.transpiled.mmm"], d)
+        for nm, txt in c.get("extra", {}).items():
+            with open(os.path.join(d, nm + ".transpiled.mmm"), "w", encoding="utf8") as f:
+                f.write(txt)
+            t2 = programs.run_bin(binary, ["transpile", nm + ".transpiled.mmm"], d)
+            if t2[0] != 0:
+                t = t2
         r = programs.run_bin(binary, ["execute", "x.mmm"], d, {"MSCRIPT_VERIF_TYPED_PRINT": "1"}) if t[0] == 0 else None
         shutil.rmtree(d, ignore_errors=True)
         return t, r
@@ -401,7 +418,9 @@ def run_stream3(ctx, binary, so):
             ctx.report("ffi-error-not-raised", "the program finished normally although the foreign function raised an error (%s)" % c["what"], replay)
         elif "after" in out or out != c["exp_out"]:
             ctx.report("ffi-later-instruction-ran", "%s: stdout %r, expected exactly %r (nothing after the failing call)" % (c["what"], out[-200:], c["exp_out"][-200:]), replay)
-        elif "FFI: " not in err or any(line not in err for line in c["fail"].split("\n")):
+        elif any(m not in err for m in c.get("must_contain", [])):
+            ctx.report("ffi-error-message-lost", "%s: the run-time error does not carry %r: %r" % (c["what"], c["must_contain"], err[-300:]), replay)
+        elif "must_contain" not in c and ("FFI: " not in err or any(line not in err for line in c["fail"].split("\n"))):
             ctx.report("ffi-error-message-lost", "%s: the run-time error does not carry the raised message %r: %r" % (c["what"], c["fail"][:120], err[-300:]), replay)
     ctx.cov["stream3"] = {"programs": n, "with_raised_error": fails,
                           "rule": "raw error messages (empty, several lines, long, non-ASCII) raised verbatim; a failing foreign call reached through `call`, two nested calls and the callback of the built-in `map`"}
